@@ -42,14 +42,6 @@ def run(c):
     if not c.coq_make(dirs=["Producer"]):
         return
     c.coq_properties()
-    try:
-        from decgen_tie import run_decgen
-        spec = os.path.join(os.path.dirname(os.path.dirname(os.path.abspath(__file__))), "go", "decgen", "specs", "C01.json")
-        # the producer hook retry.enqueue sits inside retryMessage: the spec has to ignore verifPoint calls
-        if os.path.exists(spec) and "verifPoint" in open(spec).read():
-            run_decgen(c, "C01")     # retryMessage's budget test, regenerated from the tree under test (tied to the model by Producer/DecTie.v)
-        else:
-            c.note("decgen C01 skipped: spec does not ignore verifPoint yet")
-    except ImportError:
-        c.note("decgen_tie not available")
+    from decgen_tie import run_decgen
+    run_decgen(c, "C01")     # retryMessage's budget test, regenerated from the tree under test (tied to the model by Producer/DecTie.v)
     run_common(c, "c01corr", 600, 6000)
